@@ -10,6 +10,9 @@ import (
 	"compiler/internal/diagnostics"
 	"compiler/internal/frontend/ast"
 	"compiler/internal/frontend/lexer"
+	"compiler/internal/hir"
+	hiranalysis "compiler/internal/hir/analysis"
+	hirgen "compiler/internal/hir/gen"
 	"compiler/internal/frontend/parser"
 	"compiler/internal/semantics/collector"
 	"compiler/internal/semantics/resolver"
@@ -42,6 +45,27 @@ func Run(src string) *Outcome {
 	}
 	o := &Outcome{Ctx: ctx, Mod: mod}
 	for _, d := range ctx.Diagnostics.Diagnostics() {
+		if d.Severity == diagnostics.Error {
+			o.Errors = append(o.Errors, d)
+		}
+	}
+	return o
+}
+
+// RunDeep continues where Run stops, as the pipeline does whether or not errors were reported: HIR generation and
+// the HIR analyses (return / dead-code / constant / borrow checking).
+func RunDeep(src string) *Outcome {
+	o := Run(src)
+	if o.Mod.AST == nil {
+		return o
+	}
+	hm := hirgen.New(o.Ctx, o.Mod).GenerateModule()
+	if hm != nil {
+		hir.StoreModule(o.Mod, hm)
+		hiranalysis.AnalyzeModule(o.Ctx, o.Mod, hm)
+	}
+	o.Errors = nil
+	for _, d := range o.Ctx.Diagnostics.Diagnostics() {
 		if d.Severity == diagnostics.Error {
 			o.Errors = append(o.Errors, d)
 		}
@@ -718,7 +742,7 @@ func c13Tokens(shard, shards int) {
 		println("VERIF-SOURCE-BEGIN\n" + mut + "VERIF-SOURCE-END")
 	}
 	verifrt.StepBudget(6000000, "the front end does not terminate within 6,000,000 interpreted instructions on a malformed program (about 40x the cost of the well-formed one)")
-	o := Run(mut)
+	o := RunDeep(mut)
 	verifrt.StepBudget(0, "")
 	lines := strings.Count(mut, "\n") + 1
 	for _, d := range o.Ctx.Diagnostics.Diagnostics() {
@@ -751,4 +775,76 @@ func HarnessC13Bytes() {
 	verifrt.StepBudget(6000000, "the front end does not terminate within the step bound when one byte of the source is arbitrary")
 	Run(mut)
 	verifrt.StepBudget(0, "")
+}
+
+
+// ---------------------------------------------------------------------------------------------------- C07
+// HarnessC07Shapes: a reference to a local is taken; its LAST USE sits in one of ten statement shapes (plain, then /
+// else / trailing else of an else-if chain / middle arm, loop body, match arms, nested if); a conflicting access to the
+// referent (write, read of a mutably borrowed place, re-borrow) is placed before the shape, inside the arm right
+// before the last use, or after the shape.  While the reference is still used later the conflict must be rejected
+// (positions 0, 1); once its last use has passed the same access must be accepted (position 2); without any conflict
+// the program is accepted.  Runs lexer .. type checker .. HIR generation .. HIR analyses (borrow checker) for real.
+func HarnessC07Shapes() {
+	mutable := verifrt.Choice("mutable", 2) == 1
+	shape := verifrt.Choice("shape", 10)
+	conflicts := []string{"a = 11;", "let n: &'i32 = &'a; n = 3;"}
+	if mutable {
+		conflicts = []string{"a = 11;", "let z: i32 = a; sink(z);", "let n: &i32 = &a; useref(n);", "let n: &'i32 = &'a; n = 3;"}
+	}
+	ck := verifrt.Choice("conflict", len(conflicts)+1) // the last value = no conflicting access
+	pos := 0
+	if ck < len(conflicts) {
+		pos = verifrt.Choice("position", 3)
+	}
+	conflict := ""
+	if ck < len(conflicts) {
+		conflict = conflicts[ck]
+	}
+	at := func(p int) string {
+		if ck < len(conflicts) && pos == p {
+			return conflict + "\n"
+		}
+		return ""
+	}
+	use := "useref(r);"
+	decl := "let r: &i32 = &a;"
+	if mutable {
+		use = "r = 5;"
+		decl = "let r: &'i32 = &'a;"
+	}
+	u := at(1) + use + "\n"
+	var body string
+	switch shape {
+	case 0:
+		body = u
+	case 1:
+		body = "if flag == 1 {\n" + u + "}\n"
+	case 2:
+		body = "if flag == 1 {\nsink(1);\n} else {\n" + u + "}\n"
+	case 3:
+		body = "if flag == 1 {\nsink(1);\n} else if flag == 2 {\nsink(2);\n} else {\n" + u + "}\n"
+	case 4:
+		body = "if flag == 1 {\nsink(1);\n} else if flag == 2 {\n" + u + "} else {\nsink(3);\n}\n"
+	case 5:
+		body = "while flag > 0 {\n" + u + "break;\n}\n"
+	case 6:
+		body = "match flag {\n1 => {\n" + u + "}\n_ => { sink(0); }\n}\n"
+	case 7:
+		body = "match flag {\n1 => { sink(1); }\n_ => {\n" + u + "}\n}\n"
+	case 8:
+		body = "if flag > 0 {\nif flag == 1 {\nsink(1);\n} else {\n" + u + "}\n}\n"
+	case 9:
+		body = "if flag == 1 {\nsink(1);\n} else if flag == 2 {\nsink(2);\n} else if flag == 3 {\nsink(3);\n} else {\n" + u + "}\n"
+	}
+	src := "fn sink(x: i32) { }\nfn useref(x: &i32) { }\nfn t(flag: i32) {\nlet a: i32 = 10;\n" + decl + "\n" + at(0) + body + at(2) + "sink(a);\n}\n"
+	o := RunDeep(src)
+	switch {
+	case ck == len(conflicts):
+		verifrt.Assert(o.Accepted(), "CALIBRATION: a program that borrows and uses a reference without any conflicting access is rejected: "+o.Messages())
+	case pos == 2:
+		verifrt.Assert(o.Accepted(), "an access to the referent AFTER the last use of the reference is rejected: "+o.Messages())
+	default:
+		verifrt.Assert(!o.Accepted(), "a conflicting access to the referent while the reference is still used later is accepted")
+	}
 }
